@@ -1,0 +1,58 @@
+//go:build verif
+// +build verif
+
+package sm2
+
+import "math/big"
+
+// Accessors for the verification harness (build tag `verif` only): the hand-written field
+// arithmetic on 9 limbs of 29/28 bits in Montgomery form, and the precomputed comb table.
+
+// VerifFieldOp converts a (and b) into the internal representation, applies one field operation
+// and converts the result back: "mul", "square", "add", "sub", "roundtrip".
+func VerifFieldOp(op string, a, b *big.Int) *big.Int {
+	P256Sm2()
+	var x, y, z sm2P256FieldElement
+	sm2P256FromBig(&x, a)
+	if b != nil {
+		sm2P256FromBig(&y, b)
+	}
+	switch op {
+	case "mul":
+		sm2P256Mul(&z, &x, &y)
+	case "square":
+		sm2P256Square(&z, &x)
+	case "add":
+		sm2P256Add(&z, &x, &y)
+	case "sub":
+		sm2P256Sub(&z, &x, &y)
+	default:
+		z = x
+	}
+	return sm2P256ToBig(&z)
+}
+
+// VerifLimbs returns the internal limbs of a.
+func VerifLimbs(a *big.Int) [9]uint32 {
+	P256Sm2()
+	var x sm2P256FieldElement
+	sm2P256FromBig(&x, a)
+	return [9]uint32(x)
+}
+
+// VerifPrecomputed returns the comb table used by ScalarBaseMult, as affine big integers:
+// entry (t, i) for table t in {0,1} and i in 1..15.
+func VerifPrecomputed() (xs, ys [2][15]*big.Int) {
+	P256Sm2()
+	for t := 0; t < 2; t++ {
+		for i := 0; i < 15; i++ {
+			var x, y sm2P256FieldElement
+			off := t*15*2*9 + i*2*9
+			copy(x[:], sm2P256Precomputed[off:off+9])
+			copy(y[:], sm2P256Precomputed[off+9:off+18])
+			xs[t][i] = sm2P256ToBig(&x)
+			ys[t][i] = sm2P256ToBig(&y)
+		}
+	}
+	return
+}
